@@ -8,7 +8,7 @@ use crate::rng::mix;
 
 pub fn run(prop: &'static str, tier: &str, seed: u64) -> i32 {
     let t = tier == "thorough";
-    let (seqs, per) = if t { (400usize, 150usize) } else { (48, 100) };
+    let (seqs, per) = if t { (1600usize, 150usize) } else { (48, 100) };
     let mut rep = Report::new(
         prop,
         tier,
